@@ -40,6 +40,26 @@ func (e *GRPCErrorExpr) Validate() *eval.ValidationErrors {
 			verr.Add(e, "Error %#v does not match an error defined in the API", e.Name)
 		}
 	}
+
+	// Make sure the response message attributes exist in the error type.
+	var ee *ErrorExpr
+	switch p := e.Response.Parent.(type) {
+	case *GRPCEndpointExpr:
+		ee = p.MethodExpr.Error(e.Name)
+	case *GRPCServiceExpr:
+		ee = p.Error(e.Name)
+	case *GRPCExpr:
+		ee = Root.Error(e.Name)
+	}
+	if ee != nil && e.Response.Message != nil && IsObject(ee.Type) {
+		if msgObj := AsObject(e.Response.Message.Type); msgObj != nil {
+			for _, nat := range *msgObj {
+				if ee.Find(nat.Name) == nil {
+					verr.Add(e, "Response message attribute %q is not found in error type", nat.Name)
+				}
+			}
+		}
+	}
 	return verr
 }
 
